@@ -43,7 +43,7 @@ def tag_tree(ix_tag, shape):
 def tree_sem(shape, tags):
     k = shape[0]
     if k == 'tag':
-        return z3.Or(*[z3.Bool('%s==%s' % (t, 'expr.' + shape[1])) for t in tags]) if tags else z3.BoolVal(False)
+        return z3.Or(*[z3.Bool('%s==%s' % tuple(sorted((t, 'expr.' + shape[1])))) for t in tags]) if tags else z3.BoolVal(False)
     if k == 'not':
         return z3.Not(tree_sem(shape[1], tags))
     a, b = tree_sem(shape[1], tags), tree_sem(shape[2], tags)
@@ -294,6 +294,9 @@ def body(chk):
     # Examples block's): decided on expand_scenario / expand_examples
     from checks import c16
     c16.obligations(chk, 'C15')
+    # the --name / --tags options installed through Cucumber::with_cli() survive the builder methods called afterwards
+    from checks import cucumber_builders
+    cucumber_builders.obligations(chk, 'C15')
     bad = [o for o in obs.values() if o.verdict == 'violated']
     if bad:
         confirm(chk, bad)
